@@ -887,3 +887,143 @@ func anyEscapedKey(v interface{}) bool {
 	}
 	return false
 }
+
+// ---- allOf: an object that inherits carries what it inherits ----
+
+// AllOfReport: what the inheritance oracle saw.
+type AllOfReport struct {
+	Errors  []string
+	Objects int // object nodes with an allOf rule that were judged
+	Nested  int // of these: below another object node (not the root of their schema)
+	Keys    int // inherited keys found on them
+}
+
+// AllOfInheritance checks the "objects carry children" clause for inheriting objects: an object node with the rule allOf names
+// user types of the same document; the library writes the first-level properties of those types into the node's children,
+// marked inheritedFrom. It does so for the root object of a schema and for objects reached from it through object properties
+// only (an object that is an array item keeps its rule unexpanded - the suite pins that). The oracle needs nothing but the
+// document: for every such node and every named type whose own content is an object, every first-level key of that content
+// must occur among the node's children on a child that says inheritedFrom.
+func AllOfInheritance(root interface{}) AllOfReport {
+	var rep AllOfReport
+	top, ok := root.(*Obj)
+	if !ok {
+		return rep
+	}
+	type keyT struct {
+		k   string
+		ref bool
+	}
+	typeKeys := map[string][]keyT{}
+	if uo := top.Obj("userTypes"); uo != nil {
+		for _, name := range uo.Keys {
+			t, _ := uo.M[name].(*Obj)
+			if t == nil {
+				continue
+			}
+			sch := t.Obj("schema")
+			if sch == nil {
+				continue
+			}
+			c := sch.Obj("content")
+			if c == nil {
+				continue
+			}
+			if tt, _ := c.Str("tokenType"); tt != "object" {
+				continue
+			}
+			ks := []keyT{}
+			for _, ch := range c.Arr("children") {
+				if co, ok := ch.(*Obj); ok {
+					k, _ := co.Str("key")
+					r, _ := co.M["isKeyUserTypeRef"].(bool)
+					ks = append(ks, keyT{k, r})
+				}
+			}
+			typeKeys[name] = ks
+		}
+	}
+	var node func(w string, o *Obj, depth int)
+	node = func(w string, o *Obj, depth int) {
+		if tt, _ := o.Str("tokenType"); tt != "object" {
+			return
+		}
+		var named []string
+		for _, r := range o.Arr("rules") {
+			ro, _ := r.(*Obj)
+			if ro == nil {
+				continue
+			}
+			if k, _ := ro.Str("key"); k != "allOf" {
+				continue
+			}
+			if sv, ok := ro.Str("scalarValue"); ok && sv != "" {
+				named = append(named, sv)
+			}
+			for _, rc := range ro.Arr("children") {
+				if rco, ok := rc.(*Obj); ok {
+					if sv, ok := rco.Str("scalarValue"); ok && sv != "" {
+						named = append(named, sv)
+					}
+				}
+			}
+		}
+		children := o.Arr("children")
+		if len(named) > 0 {
+			rep.Objects++
+			if depth > 0 {
+				rep.Nested++
+			}
+			have := map[keyT]bool{}
+			for _, ch := range children {
+				if co, ok := ch.(*Obj); ok {
+					if from, _ := co.Str("inheritedFrom"); from != "" {
+						k, _ := co.Str("key")
+						r, _ := co.M["isKeyUserTypeRef"].(bool)
+						have[keyT{k, r}] = true
+					}
+				}
+			}
+			for _, tn := range named {
+				ks, ok := typeKeys[tn]
+				if !ok {
+					continue
+				}
+				for _, k := range ks {
+					if have[k] {
+						rep.Keys++
+					} else if len(rep.Errors) < 10 {
+						rep.Errors = append(rep.Errors, fmt.Sprintf("%s: object with allOf %s does not carry the property %q of that type (inherited children: %d)", w, tn, k.k, len(have)))
+					}
+				}
+			}
+		}
+		for i, ch := range children {
+			if co, ok := ch.(*Obj); ok {
+				k, _ := co.Str("key")
+				node(fmt.Sprintf("%s.children[%d](%s)", w, i, k), co, depth+1)
+			}
+		}
+	}
+	var walk func(w string, v interface{})
+	walk = func(w string, v interface{}) {
+		switch x := v.(type) {
+		case *Obj:
+			if n, _ := x.Str("notation"); n == "jsight" && x.Has("content") {
+				if c := x.Obj("content"); c != nil {
+					node(w+".content", c, 0)
+				}
+				return
+			}
+			for _, k := range x.Keys {
+				walk(w+"."+k, x.M[k])
+			}
+		case []interface{}:
+			for i, e := range x {
+				walk(fmt.Sprintf("%s[%d]", w, i), e)
+			}
+		}
+	}
+	walk("$", top)
+	return rep
+}
